@@ -106,10 +106,20 @@ fn gen_float(rng: &mut Rng) -> f64 {
     if rng.chance(1, 2) { *rng.pick(FS) } else {
         loop {
             let f = f64::from_bits(rng.next());
-            if f.is_finite() { return f; }
+            if f.is_finite() && literal_exact(f) { return f; }
         }
     }
 }
+
+/// serde_json without its `float_roundtrip` feature (the workspace does not enable it) reads a
+/// 16-17 digit float literal up to a few ULP off — before any repo code runs. Only floats whose
+/// shortest literal serde_json reads back exactly are used as inputs (the others are counted).
+fn literal_exact(f: f64) -> bool {
+    let ok = serde_json::to_string(&f).ok().and_then(|s| serde_json::from_str::<f64>(&s).ok()).map(|g| g.to_bits() == f.to_bits()).unwrap_or(false);
+    if !ok { INEXACT.fetch_add(1, std::sync::atomic::Ordering::Relaxed); }
+    ok
+}
+static INEXACT: std::sync::atomic::AtomicU64 = std::sync::atomic::AtomicU64::new(0);
 
 fn gen_string(rng: &mut Rng) -> String {
     const SS: &[&str] = &["", "a", "hello world", "42", "true", "null", "1.5", "\"quoted\"", "back\\slash", "line\nbreak\ttab",
@@ -207,7 +217,14 @@ fn first_output_fields(body: &serde_json::Value, batch: bool) -> String {
     }
 }
 
-pub fn run(ctx: &mut Ctx, _name: &str) {
+pub fn run(ctx: &mut Ctx, name: &str) {
+    run_inner(ctx, name);
+    let n = INEXACT.load(std::sync::atomic::Ordering::Relaxed);
+    ctx.count_n("float-literals-skipped:serde_json-reads-them-inexactly", n);
+    ctx.notes.push(format!("{n} random floats skipped because serde_json (no float_roundtrip feature) does not read their shortest literal back exactly"));
+}
+
+fn run_inner(ctx: &mut Ctx, _name: &str) {
     let n_conv = if ctx.thorough { 30000 } else { 2500 };
     let n_back = if ctx.thorough { 10000 } else { 1000 };
     let n_http = if ctx.thorough { 4000 } else { 400 };
